@@ -31,5 +31,10 @@ void vp_native_model_assume(int c);
 #endif
 /* C++ pointer difference (null - null is 0) */
 #define __vp_pdiff(a, b) ({ char* a_ = (a); char* b_ = (b); a_ == b_ ? (uint64_t)0 : (uint64_t)(a_ - b_); })
+#ifdef VP_NATIVE
+#define __vp_pcmp(a, op, b) ((a) op (b))
+#else
+#define __vp_pcmp(a, op, b) ({ char* a_ = (a); char* b_ = (b); __CPROVER_same_object(a_, b_) ? ((int64_t)__CPROVER_POINTER_OFFSET(a_) op (int64_t)__CPROVER_POINTER_OFFSET(b_)) : (a_ op b_); })
+#endif
 static inline char* __vp_new_typed(unsigned long n, char* p) { __CPROVER_assume(p != 0); return p; }
 #endif
